@@ -16,10 +16,14 @@ import (
 // searches of C15 and adds its numbers to the same evidence file.
 
 func checkC15(prop, tier string) int {
-	rc := checkG1(prop, tier)
+	rc := 0
+	if os.Getenv("VERIF_C15_FAULTS_ONLY") == "" || os.Getenv("VERIF_OUT") == "" { // (debugging: the family alone, scratch output only)
+		rc = checkG1(prop, tier)
+	}
 	t0 := time.Now()
-	// workloads with compactions: forced every round, leveled (partial then full), forced with a footer-only file
-	fr := runFaultPlans(tier, []int{1, 2, 5})
+	// workloads with compactions: forced every round, leveled (partial then full), forced with a footer-only file,
+	// forced / leveled after a clean close + reopen
+	fr := runFaultPlans(tier, []int{1, 2, 5, 7, 8})
 	if fr.rc != 0 {
 		return fr.rc
 	}
